@@ -438,6 +438,77 @@ pub fn run_c06_wire(ctx: &Ctx) {
     let prop = C06Wire { rig: &rig };
     let strat = proptest::collection::vec(proptest::collection::vec((0u8..3, 1u8..=4), 1..=5), ctx.tier.pick(40, 200)..=ctx.tier.pick(40, 200)).prop_map(|names| CacheWireCase { names });
     run_wire(ctx, &prop, strat, ctx.tier.pick(1, 20), 1);
+    if !ctx.violations.lock().unwrap().is_empty() {
+        return;
+    }
+    // Two clients ask the same question at the same moment; the upstream answers the first
+    // transmission it sees (records of TTL 1..2 s) and nothing after it, so that one client is
+    // answered at once and the other's query fails after the forwarder's retries (6..20 s).
+    // Whatever the second client is told then, it is not the first client's answer: that left
+    // the upstream longer ago than its TTL.
+    for (k, ttl) in [(0u16, 2u32), (1, 1)] {
+        let mut out = Outcome::default();
+        out.nontrivial = true;
+        out.class("twin-queries-one-answered-one-lost");
+        let case = serde_json::json!({"twin_queries": true, "ttl": ttl});
+        let name = vec![unique_label(), format!("twin{}", k).into_bytes(), b"test".to_vec()];
+        let question = dns::Question { name: name.clone(), qtype: 1, qclass: 1 };
+        let mut m = dns::Message {
+            header: dns::Header { qr: true, rd: true, ra: true, ..Default::default() },
+            questions: vec![question.clone()],
+            ..Default::default()
+        };
+        m.answer.push(dns::Rr { name: name.clone(), rtype: 1, class: 1, ttl, rdata: dns::RData::Raw(vec![192, 0, 2, 77]) });
+        rig.ups[0].state.set(qkey(&question), Script { reply: Reply::Model(m, dns::Compress::All), drop_mask: !1u32, ..Default::default() });
+        let dst = rig.target(false);
+        let t0 = std::time::Instant::now();
+        let got: Vec<Option<(u16, usize, Vec<u32>, f64)>> = std::thread::scope(|sc| {
+            let hs: Vec<_> = (0..2u16)
+                .map(|i| {
+                    let name = name.clone();
+                    sc.spawn(move || {
+                        let q = dns::encode(&dns::query(0x6600 + i, &name, 1, 1, true, None), dns::Compress::Off);
+                        let g = udp_exchange(IpAddr::V6(Ipv6Addr::LOCALHOST), dst, &q, Duration::from_secs(40), Duration::from_millis(20)).ok()?;
+                        let g = g.first()?;
+                        let (r, _) = dns::decode(&g.bytes).ok()?;
+                        Some((r.full_rcode(), r.answer.len(), r.answer.iter().map(|a| a.ttl).collect(), t0.elapsed().as_secs_f64()))
+                    })
+                })
+                .collect();
+            hs.into_iter().map(|h| h.join().unwrap()).collect()
+        });
+        let asked = rig.ups[0].state.seen_for(&qkey(&question));
+        let answered_at = asked.iter().find(|s| s.answered).map(|s| s.at);
+        for g in got.iter().flatten() {
+            let (rcode, nans, ttls, at) = g;
+            // an answer with records that reaches its client later than TTL + 1.5 s after the
+            // upstream's only reply left can only be that reply, served past its TTL
+            if *rcode == 0 && *nans > 0 && *at > ttl as f64 + 1.5 && answered_at.is_some() {
+                out.fail(
+                    "C06:wire:served-past-ttl",
+                    format!(
+                        "a client was answered with {} record(s) (TTLs {:?}) {:.1} s after asking; the upstream answered only once, with TTL {} s, {} transmissions seen in all",
+                        nans, ttls, at, ttl, asked.len()
+                    ),
+                );
+                break;
+            }
+        }
+        if out.fail.is_none() {
+            if let Some(h) = rig.health() {
+                out.fail(h.sig, h.detail);
+            }
+        }
+        ctx.record(prop.sub(), &case, &out);
+        if let Some(f) = out.fail {
+            if ctx.is_known(&f.sig) {
+                ctx.known_hit(&f.sig);
+            } else {
+                ctx.violation(prop.sub(), &f, &case);
+                return;
+            }
+        }
+    }
 }
 
 // ---------------------------------------------------------------------------------------------
